@@ -9,8 +9,8 @@ cd /verif
 seeds=($(ls seeded | grep -E '^C[0-9]+-[0-9]+$' | sort))
 HC=$(git -C /verif rev-parse --short HEAD); RC=$(git -C /repo rev-parse --short HEAD)
 for idx in "${!seeds[@]}"; do
-  [ $((idx % N)) -eq $((I - 1)) ] || continue
   s=${seeds[$idx]}; P=${s%-*}; D=/verif/seeded/$s
+  if [ -n "${ONLY:-}" ]; then case " $ONLY " in *" $s "*) ;; *) continue;; esac; else [ $((idx % N)) -eq $((I - 1)) ] || continue; fi
   ids=$(python3 - "$s" <<'PY'
 import sys,json
 s=sys.argv[1]; P=s.split('-')[0]
